@@ -173,6 +173,19 @@ CHECKS["C13"] = dict(
          "8 bytes in the reader obligations. URL sources and encodings inside expat outside.",
     ref="DESIGN.md 5/C13")
 
+CHECKS["C19"] = dict(
+    technique=TECH + " - etree_getpath() on trees chosen by symbolic shape/tag/target indices vs. a reference path evaluator; "
+                     "schema.iter_errors() on a template document damaged at a symbolic (node, fault kind)",
+    category="model_checking",
+    text="Path kernel: for every tree of 4 (5 thorough) nodes (every parent vector), every tag assignment from a pool over two namespaces and "
+         "no namespace, every target node and four namespace maps (prefixes, default namespace, two prefixes for one URI, empty), the path "
+         "returned for add_position=True selects exactly the target under the reference evaluator. Localisation: for each of 9 nodes x 7 fault "
+         "kinds (bad value, removed/extra/misplaced child, missing/extra/bad attribute) the document is reported invalid, every error path "
+         "selects exactly the error's element, one error sits at the damaged node or its parent and none outside its ancestor chain/subtree.",
+    note="Finite-choice. Known finding: unprefixed step for a no-namespace element under a default-namespace map (region subtracted). Lazy "
+         "resources and identity-constraint errors outside.",
+    ref="DESIGN.md 5/C19")
+
 NOT_APPLICABLE = {
     "C18": "quantifies over thread interleavings; no engine of this family here executes Python threads symbolically (CrossHair is "
            "single-threaded); see DESIGN.md section 6",
